@@ -140,12 +140,16 @@ def pca_dataset(inp):
                    spike_clusters=inp.get('spike_clusters'))
     ds = D.render(sem, None)
     files = ds['files']
-    w = inp['w']                                # [stored index][sample][channel]
+    w = inp['w']                                # [stored index][sample][stored column]
     nst, nsamp, nc = len(w), inp['nsamp'], inp['n_channels']
+    chrows = inp.get('chrows')                  # stage 4: per-spike channel rows (-1 = padding); None = all channels
+    if chrows is not None:
+        nc = len(chrows[0])
     files['_phy_spikes_subset.waveforms.npy'] = {'dtype': inp.get('wdtype', 'float32'), 'shape': [nst, nsamp, nc],
                                                  'data': [float(v) for m in w for r in m for v in r]}
-    files['_phy_spikes_subset.channels.npy'] = {'dtype': 'int32', 'shape': [nst, nc],
-                                                'data': [c for _ in range(nst) for c in range(nc)]}
+    files['_phy_spikes_subset.channels.npy'] = {'dtype': inp.get('chdtype', 'int32'), 'shape': [nst, nc],
+                                                'data': ([c for _ in range(nst) for c in range(nc)] if chrows is None
+                                                         else [c for r in chrows for c in r])}
     files['_phy_spikes_subset.spikes.npy'] = {'dtype': 'int64', 'shape': [nst], 'data': list(inp['stored'])}
     return ds
 
@@ -219,3 +223,95 @@ def helmert_waveforms(rng, k, nsamp, nc):
             for l in range(k):
                 w[l][j][ch] += b
     return w
+
+
+# ---- stage 4: sparse waveform stores (per-spike channel rows, channels missing for some spikes) ------------
+
+def effective_waveforms(inp):
+    """What get_spike_waveforms must return for the requested stored spikes (increasing id order) on the requested
+    channels: the stored column of the channel, zeros when the spike's row does not name the channel."""
+    stored, chrows, w = inp['stored'], inp['chrows'], inp['w']
+    exist = sorted(set(inp['ids']) & set(stored))
+    out = []
+    for sp in exist:
+        q = stored.index(sp)
+        row = chrows[q]
+        out.append([[(w[q][j][row.index(ch)] if ch in row else 0) for ch in inp['chans']] for j in range(inp['nsamp'])])
+    return out
+
+
+def determined_components(W, c):
+    """Python mirror of LinkC03.pca_leading_max: per requested channel the number (<= c) of leading variances that are
+    positive and strictly above everything that follows; None when some channel's covariance is not diagonal.  Only
+    used to cross-check the generator (the Coq side recomputes it and answers code 3 on a mismatch)."""
+    k = len(W)
+    if k == 0:
+        return None
+    nsamp, nc = len(W[0]), len(W[0][0])
+    counts = []
+    for ch in range(nc):
+        col = [[W[l][j][ch] for l in range(k)] for j in range(nsamp)]
+
+        def scov(a, b):
+            return k * sum(x * y for x, y in zip(a, b)) - sum(a) * sum(b)
+        for j in range(nsamp):
+            for j2 in range(nsamp):
+                if j != j2 and scov(col[j], col[j2]) != 0:
+                    return None
+        d = [scov(col[j], col[j]) for j in range(nsamp)]
+        n = 0
+        for _ in range(c):
+            i = max(range(nsamp), key=lambda t: (d[t], -t))
+            v = d[i]
+            d2 = list(d)
+            d2[i] = -1
+            i2 = max(range(nsamp), key=lambda t: (d2[t], -t))
+            if d2[i2] < v and 0 < v:
+                n += 1
+                d = d2
+            else:
+                break
+        counts.append(n)
+    return counts
+
+
+def sparse_exact_waveforms(rng, k, nsamp, nc, stores):
+    """(k, nsamp, nc) integer waveforms, zero wherever stores[l][ch] is False, whose per-channel covariance over the k
+    spikes is exactly diagonal: on channel ch the first kk of the (shuffled) spikes that store it carry Helmert
+    contrasts (or, for kk == 1, a single non-zero sample), the others zeros; per-sample offsets only where every
+    spike stores the channel."""
+    c = min(3, k - 1)
+    E = [[[0] * nc for _ in range(nsamp)] for _ in range(k)]
+    for ch in range(nc):
+        P = [l for l in range(k) if stores[l][ch]]
+        rng.shuffle(P)
+        if not P or k == 1:
+            if P and k == 1:
+                for j in range(nsamp):
+                    E[0][j][ch] = rng.randint(-9, 9)
+            continue
+        kk = len(P) if rng.random() < 0.75 else rng.randint(1, len(P))
+        if kk == 1:
+            j0, a = rng.randrange(nsamp), rng.choice([-7, -3, 2, 5, 9])
+            E[P[0]][j0][ch] = a
+            continue
+        cdet = min(c, kk - 1)
+        while True:
+            nact = rng.randint(cdet, min(nsamp, kk - 1))
+            active = rng.sample(range(nsamp), nact)
+            pats = rng.sample(range(1, kk), nact)
+            mags = [rng.randint(1, 6) for _ in range(nact)]
+            var = sorted((a * a * m * (m + 1) for a, m in zip(mags, pats)), reverse=True)
+            top = (var + [0])[:cdet + 1]
+            if all(top[i] > top[i + 1] for i in range(cdet)):
+                break
+        for j, m, a in zip(active, pats, mags):
+            sgn = rng.choice([1, -1])
+            for l in range(kk):
+                E[P[l]][j][ch] = sgn * a * (1 if l < m else (-m if l == m else 0))
+        if len(P) == k and rng.random() < 0.5:
+            for j in range(nsamp):
+                b = rng.choice([0, 0, 1, -2, 3])
+                for l in range(k):
+                    E[l][j][ch] += b
+    return E
